@@ -637,18 +637,20 @@ impl ArrayData {
         assert!(end <= self.len());
 
         if let DataType::Struct(_) = self.data_type() {
-            // Slice into children
+            // Slice into children: the offset of a struct applies to its children, so once the
+            // children are sliced by `self.offset + offset` the resulting struct has offset 0
+            // (keeping the offset as well would apply it twice, see `StructArray::from`)
             let new_offset = self.offset + offset;
             ArrayData {
                 data_type: self.data_type().clone(),
                 len: length,
-                offset: new_offset,
+                offset: 0,
                 buffers: self.buffers.clone(),
                 // Slice child data, to propagate offsets down to them
                 child_data: self
                     .child_data()
                     .iter()
-                    .map(|data| data.slice(offset, length))
+                    .map(|data| data.slice(new_offset, length))
                     .collect(),
                 nulls: self.nulls.as_ref().map(|x| x.slice(offset, length)),
             }
